@@ -198,6 +198,50 @@ const trivialAddr = "0xc0de0000000000000000000000000000000000ff"
 // fatAcct holds 2^256-1 wei in the pre-state (a possible pre-state, if not a likely one)
 const fatAcct = "0xfa7000000000000000000000000000000000fa70"
 
+// genJournalLoop: one frame that executes thousands of flat-fee journal instructions -
+// the work each of them does must not grow with what was journaled before (C20's
+// "loops, copies or allocations of attacker-chosen size for a flat fee", amortised).
+func genJournalLoop(seed uint64) *Scenario {
+	r := NewRNG(seed ^ 0x100b)
+	sc := &Scenario{Prop: "C20", Seed: seed, Fork: pick(r, []string{"Berlin", "London", "Shanghai", "Cancun"}), Block: genBlock(r), Tracer: "rec", Profile: "jloop"}
+	sc.Accounts = append(sc.Accounts, Account{Addr: eoaA, Balance: "0xffffffffffffffffffff"})
+	n := 2500 + r.Intn(3000)
+	p := &Program{}
+	tid, ptid := unhex(typeID("uint256")), unhex(typeID("t"))
+	switch r.Intn(3) {
+	case 0:
+		// the same variable takes a new value in every iteration: SSTORE(5, counter); VVJNAL
+		p.M = append(p.M, journalVar("v", 5)...)
+		p.M = append(p.M, Macro{K: "loop", N: n, Body: []Macro{{K: "raw", Data: "0x80600555"}, journalChange(5)}})
+	case 1:
+		// two alternating values: every journal is a change against the last entry
+		p.M = append(p.M, journalVar("v", 5)...)
+		p.M = append(p.M, Macro{K: "loop", N: n / 2, Body: []Macro{
+			{K: "op", Op: "SSTORE", A: []string{"0x5", "0x1"}}, journalChange(5),
+			{K: "op", Op: "SSTORE", A: []string{"0x5", "0x2"}}, journalChange(5)}})
+	default:
+		// a new child key (index = slot = counter) under one parent in every iteration, then
+		// a change journal on it: PUSH32 ptid PUSH32 tid PUSH1 0 DUP4 DUP5 PUSH1 5 IVVVJNAL ;
+		// PUSH32 tid PUSH1 0x20 PUSH1 0 DUP4 VVJNAL
+		p.M = append(p.M, nameWord("m")...)
+		p.M = append(p.M, Macro{K: "op", Op: "VSVJNAL", A: []string{"0x200", "0x5", "0x0", typeID("t")}})
+		var raw []byte
+		raw = append(raw, 0x7f)
+		raw = append(raw, ptid...)
+		raw = append(raw, 0x7f)
+		raw = append(raw, tid...)
+		raw = append(raw, 0x60, 0x00, 0x83, 0x84, 0x60, 0x05, 0xe4)
+		raw = append(raw, 0x7f)
+		raw = append(raw, tid...)
+		raw = append(raw, 0x60, 0x20, 0x60, 0x00, 0x83, 0xe6)
+		p.M = append(p.M, Macro{K: "loop", N: n, Body: []Macro{{K: "raw", Data: hx(raw)}}})
+	}
+	p.M = append(p.M, Macro{K: "term", Op: "STOP"})
+	sc.Accounts = append(sc.Accounts, Account{Addr: contractAddr(0), Balance: "0x10", Nonce: 1, Code: p, Storage: map[string]string{"0x5": "0x55"}})
+	sc.Execs = []Exec{{Txs: []Tx{{Kind: "call", From: eoaA, To: contractAddr(0), Gas: 60000000}}}}
+	return sc
+}
+
 func genC03(seed uint64, tier string) *Scenario {
 	r := NewRNG(seed)
 	sc := &Scenario{Prop: "C03", Seed: seed, Fork: forkOrder[r.Intn(len(forkOrder))], Block: genBlock(r), Tracer: "rec"}
@@ -442,6 +486,9 @@ func init() {
 		Rule:   "same adversarial profiles, biased to long-string encodings and huge length words; invariant per executed instruction: StateDB reads <= 32 + cost/10 (enforced while the instruction runs) and bytes allocated <= 1 MiB + 64*cost + 2*memory size (journal, copy and call windows); distinct = hash of event-kind sequence",
 		Assume: []string{"work that crosses no seam (hashing inside a precompile, CPU time) is not measured"},
 		Real:   real, Stub: stub, Gen: func(seed uint64, tier string) *Scenario {
+			if seed%160 == 7 {
+				return genJournalLoop(seed)
+			}
 			sc := genC03(seed, tier)
 			sc.Prop = "C20"
 			return sc
